@@ -20,6 +20,7 @@ import (
 	"encoding/json"
 	"fmt"
 	"io"
+	"os"
 	"sort"
 	"strconv"
 	"strings"
@@ -697,6 +698,10 @@ func (s *c04Sim) permit(t *rapid.T, p *c04Pod) {
 	s.logf("permit %s -> wait [%s]", p.name, detail)
 	s.c.Class("permit-wait")
 	s.c.ClassIf(ok, "wait-though-model-satisfied(not asserted)")
+	if ok && os.Getenv("VERIF_C04_DEBUG_WAIT") != "" {
+		s.violation(t, "debug:wait-though-satisfied", "Permit(%s)=Wait: %s", p.key, detail)
+		return
+	}
 	p.phase, p.decision = c04PhParked, c04DecNone
 }
 
@@ -712,7 +717,7 @@ func c04GenSim(t *rapid.T, c *vk.Case) *c04Sim {
 	s.mgr = &PodGroupManager{handle: s.h, args: s.args, cache: s.cache}
 
 	sizes := []int{rapid.SampledFrom([]int{1, 2, 2, 2, 3, 3}).Draw(t, "group0Size")}
-	if rapid.IntRange(0, 2).Draw(t, "secondGroup") == 0 {
+	if rapid.IntRange(0, 2).Draw(t, "secondGroup") == 2 {
 		sizes = append(sizes, rapid.IntRange(1, 2).Draw(t, "group1Size"))
 	}
 	for gi, n := range sizes {
@@ -722,11 +727,11 @@ func c04GenSim(t *rapid.T, c *vk.Case) *c04Sim {
 			g.ns = rapid.SampledFrom([]string{"n1", "n1", "n2"}).Draw(t, "ns")
 			g.name = fmt.Sprintf("g%d", g.idx)
 			g.id = g.ns + "/" + g.name
-			switch rapid.IntRange(0, 4).Draw(t, "declaredBy") {
-			case 0, 1:
-				g.crd = true
+			switch rapid.IntRange(0, 4).Draw(t, "declaredBy") { // 0,1: plain annotations
 			case 2:
 				g.light = true
+			case 3, 4:
+				g.crd = true
 			}
 			g.min = rapid.SampledFrom([]int{1, 1, 2, 2, 2, 3}).Draw(t, "min")
 			if rapid.Bool().Draw(t, "hasTotal") {
@@ -774,24 +779,22 @@ func (s *c04Sim) pgAdd(t *rapid.T, g *c04Gang) {
 
 const c04MaxPods = 9
 
-// ---------------------------------------------------------------- the history test
+// ---------------------------------------------------------------- rules
 
 func c04Silence() {
 	klog.LogToStderr(false)
 	klog.SetOutput(io.Discard)
 }
 
-func c04Pick(t *rapid.T, s *c04Sim, label string, pred func(*c04Pod) bool) *c04Pod {
-	var el []*c04Pod
-	for _, p := range s.pods {
-		if pred(p) {
-			el = append(el, p)
-		}
-	}
-	if len(el) == 0 {
-		t.Skip("no eligible pod for " + label)
-	}
-	return el[rapid.IntRange(0, len(el)-1).Draw(t, label)]
+// c04Rule is one kind of step. A rule is enabled when at least one pod (or gang) satisfies its predicate; the step
+// action draws one enabled rule (weighted) and one eligible subject, so no step is wasted on a disabled rule.
+type c04Rule struct {
+	name  string
+	w     int
+	pod   func(*c04Pod) bool
+	gang  func(*c04Gang) bool
+	other func() bool
+	run   func(t *rapid.T, p *c04Pod, g *c04Gang)
 }
 
 func c04InCycle(p *c04Pod) bool {
@@ -800,42 +803,18 @@ func c04InCycle(p *c04Pod) bool {
 	return p.phase == c04PhQueue && p.delivered > 0 && !p.fwNoticedDelete && p.bindVer == 0
 }
 
-func TestVerifC04History(t *testing.T) {
-	c04Silence()
-	rec := vk.New(t, "C04", "history")
-	rapid.Check(t, func(t *rapid.T) {
-		c := rec.Begin()
-		defer c.End()
-		s := c04GenSim(t, c)
+func c04Binding(p *c04Pod) bool {
+	return p.phase == c04PhBinding || (p.phase == c04PhParked && p.decision == c04DecAllowed)
+}
 
-		// initial population: PodGroups mostly present, a few pods per gang mostly delivered
-		for _, g := range s.gangs {
-			if g.crd && rapid.IntRange(0, 5).Draw(t, "pgPresent") > 0 {
-				s.pgAdd(t, g)
-			}
-			n := rapid.IntRange(0, g.min+1).Draw(t, "initialPods")
-			for i := 0; i < n && len(s.pods) < c04MaxPods; i++ {
-				p := s.newPod(g, rapid.IntRange(0, 9).Draw(t, "preBound") == 0)
-				if rapid.IntRange(0, 5).Draw(t, "deliveredAtStart") > 0 {
-					s.deliverTo(p, 1)
-				}
-			}
-		}
-		s.checkPartition(t)
-
-		permit := func(t *rapid.T) {
-			if s.dead {
-				return
-			}
-			s.permit(t, c04Pick(t, s, "permitPod", c04InCycle))
-		}
-		deliver := func(t *rapid.T) {
-			if s.dead {
-				return
-			}
-			p := c04Pick(t, s, "deliverPod", func(p *c04Pod) bool {
-				return !p.deleteDelivered && (p.delivered < p.apiVer || (p.apiDeleted && p.delivered > 0))
-			})
+func (s *c04Sim) rules() []c04Rule {
+	modes := []string{"", extension.GangModeStrict, extension.GangModeNonStrict}
+	policies := []string{"", extension.GangMatchPolicyOnlyWaiting, extension.GangMatchPolicyWaitingAndRunning, extension.GangMatchPolicyOnceSatisfied}
+	return []c04Rule{
+		{name: "permit", w: 8, pod: c04InCycle, run: func(t *rapid.T, p *c04Pod, _ *c04Gang) { s.permit(t, p) }},
+		{name: "deliver", w: 5, pod: func(p *c04Pod) bool {
+			return !p.deleteDelivered && (p.delivered < p.apiVer || p.apiDeleted)
+		}, run: func(t *rapid.T, p *c04Pod, _ *c04Gang) {
 			if p.apiDeleted && p.delivered == 0 {
 				// never seen and already gone: the informer never reports it
 				p.deleteDelivered = true
@@ -851,221 +830,223 @@ func TestVerifC04History(t *testing.T) {
 				return
 			}
 			s.deliverDelete(t, p)
-		}
-		actions := map[string]func(*rapid.T){
-			"permit": permit, "permit2": permit, "permit3": permit, "permit4": permit,
-			"deliver": deliver, "deliver2": deliver,
-			"resync": func(t *rapid.T) {
-				if s.dead {
-					return
-				}
-				p := c04Pick(t, s, "resyncPod", func(p *c04Pod) bool { return p.delivered > 0 && !p.deleteDelivered })
-				s.deliverTo(p, p.delivered)
-			},
-			"podCreate": func(t *rapid.T) {
-				if s.dead {
-					return
-				}
-				if len(s.pods) >= c04MaxPods {
-					t.Skip("pod budget")
-				}
-				g := s.gangs[rapid.IntRange(0, len(s.gangs)-1).Draw(t, "gang")]
-				s.newPod(g, rapid.IntRange(0, 9).Draw(t, "preBound") == 0)
-			},
-			"podTouch": func(t *rapid.T) {
-				if s.dead {
-					return
-				}
-				p := c04Pick(t, s, "touchPod", func(p *c04Pod) bool { return !p.apiDeleted })
-				p.apiVer++
-				s.logf("api touch %s -> v%d", p.name, p.apiVer)
-			},
-			"podDelete": func(t *rapid.T) {
-				if s.dead {
-					return
-				}
-				p := c04Pick(t, s, "deletePod", func(p *c04Pod) bool { return !p.apiDeleted })
-				p.apiDeleted = true
-				s.logf("api delete %s", p.name)
-			},
-			"fwNoticeDelete": func(t *rapid.T) {
-				if s.dead {
-					return
-				}
-				p := c04Pick(t, s, "noticePod", func(p *c04Pod) bool { return p.apiDeleted && !p.fwNoticedDelete && p.delivered > 0 })
-				p.fwNoticedDelete = true
-				if p.phase == c04PhParked && p.decision == c04DecNone {
-					p.decision = c04DecRejected // framework.RejectWaitingPod
-				}
-				s.logf("framework notices deletion of %s (phase %s)", p.name, c04PhName[p.phase])
-			},
-			"reserveFail": func(t *rapid.T) {
-				if s.dead {
-					return
-				}
-				p := c04Pick(t, s, "reserveFailPod", c04InCycle)
-				p.schedObj = s.cycleObj(p, true)
-				s.unreserve(t, p, "reserve failed")
-			},
-			"postFilterFail": func(t *rapid.T) {
-				if s.dead {
-					return
-				}
-				p := c04Pick(t, s, "unschedulablePod", c04InCycle)
-				e := s.expectReject(p)
-				s.rejected = nil
-				s.mgr.AfterPostFilter(context.TODO(), framework.NewCycleState(), s.cycleObj(p, false), s.h, Name, nil, nil)
-				s.logf("afterPostFilter %s -> rejected %v", p.name, s.rejected)
-				s.disturb(p.gang.grp, "unschedulable-between-permits")
-				s.checkReject(t, e, "afterPostFilter", p)
-			},
-			"permitTimeout": func(t *rapid.T) {
-				if s.dead {
-					return
-				}
-				p := c04Pick(t, s, "timeoutPod", func(p *c04Pod) bool { return p.phase == c04PhParked && p.decision == c04DecNone })
+		}},
+		{name: "postBind", w: 3, pod: func(p *c04Pod) bool { return p.phase == c04PhPostBindDue }, run: func(t *rapid.T, p *c04Pod, _ *c04Gang) {
+			s.mgr.PostBind(context.TODO(), p.schedObj, "node-1")
+			s.logf("postBind %s", p.name)
+			s.c.ClassIf(p.deleteDelivered, "postbind-after-delete-delivered(zombie)")
+			s.c.ClassIf(p.delivered >= p.bindVer, "postbind-after-informer-saw-node")
+			if p.gang.recExists {
+				p.st = c04Bound
+			}
+			s.once[p.gang.grp] = true
+			p.phase = c04PhDone
+		}},
+		{name: "bindOK", w: 4, pod: func(p *c04Pod) bool { return !p.apiDeleted && c04Binding(p) }, run: func(t *rapid.T, p *c04Pod, _ *c04Gang) {
+			p.apiVer++
+			p.bindVer = p.apiVer
+			p.phase = c04PhPostBindDue
+			s.logf("bind ok %s -> v%d", p.name, p.apiVer)
+		}},
+		{name: "bindFail", w: 2, pod: c04Binding, run: func(t *rapid.T, p *c04Pod, _ *c04Gang) { s.unreserve(t, p, "bind failed") }},
+		{name: "unreserveRejected", w: 3, pod: func(p *c04Pod) bool { return p.phase == c04PhParked && p.decision == c04DecRejected },
+			run: func(t *rapid.T, p *c04Pod, _ *c04Gang) { s.unreserve(t, p, "rejected while waiting") }},
+		{name: "permitTimeout", w: 2, pod: func(p *c04Pod) bool { return p.phase == c04PhParked && p.decision == c04DecNone },
+			run: func(t *rapid.T, p *c04Pod, _ *c04Gang) {
 				p.decision = c04DecRejected
 				s.logf("permit timeout %s", p.name)
-			},
-			"unreserveRejected": func(t *rapid.T) {
-				if s.dead {
-					return
+			}},
+		{name: "reserveFail", w: 1, pod: c04InCycle, run: func(t *rapid.T, p *c04Pod, _ *c04Gang) {
+			p.schedObj = s.cycleObj(p, true)
+			s.unreserve(t, p, "reserve failed")
+		}},
+		{name: "postFilterFail", w: 2, pod: c04InCycle, run: func(t *rapid.T, p *c04Pod, _ *c04Gang) {
+			e := s.expectReject(p)
+			s.rejected = nil
+			s.mgr.AfterPostFilter(context.TODO(), framework.NewCycleState(), s.cycleObj(p, false), s.h, Name, nil, nil)
+			s.logf("afterPostFilter %s -> rejected %v", p.name, s.rejected)
+			s.disturb(p.gang.grp, "unschedulable-between-permits")
+			s.checkReject(t, e, "afterPostFilter", p)
+		}},
+		{name: "podCreate", w: 3, other: func() bool { return len(s.pods) < c04MaxPods }, run: func(t *rapid.T, _ *c04Pod, _ *c04Gang) {
+			g := s.gangs[rapid.IntRange(0, len(s.gangs)-1).Draw(t, "gang")]
+			s.newPod(g, rapid.IntRange(0, 9).Draw(t, "preBound") == 9)
+		}},
+		{name: "podTouch", w: 2, pod: func(p *c04Pod) bool { return !p.apiDeleted }, run: func(t *rapid.T, p *c04Pod, _ *c04Gang) {
+			p.apiVer++
+			s.logf("api touch %s -> v%d", p.name, p.apiVer)
+		}},
+		{name: "resync", w: 1, pod: func(p *c04Pod) bool { return p.delivered > 0 && !p.deleteDelivered }, run: func(t *rapid.T, p *c04Pod, _ *c04Gang) {
+			s.deliverTo(p, p.delivered)
+		}},
+		{name: "podDelete", w: 2, pod: func(p *c04Pod) bool { return !p.apiDeleted }, run: func(t *rapid.T, p *c04Pod, _ *c04Gang) {
+			p.apiDeleted = true
+			s.logf("api delete %s", p.name)
+		}},
+		{name: "fwNoticeDelete", w: 2, pod: func(p *c04Pod) bool { return p.apiDeleted && !p.fwNoticedDelete && p.delivered > 0 },
+			run: func(t *rapid.T, p *c04Pod, _ *c04Gang) {
+				p.fwNoticedDelete = true
+				if p.phase == c04PhParked && p.decision == c04DecNone {
+					p.decision = c04DecRejected // framework.RejectWaitingPod from the scheduler's own delete handler
 				}
-				p := c04Pick(t, s, "rejectedPod", func(p *c04Pod) bool { return p.phase == c04PhParked && p.decision == c04DecRejected })
-				s.unreserve(t, p, "rejected while waiting")
-			},
-			"bindOK": func(t *rapid.T) {
-				if s.dead {
-					return
+				s.logf("framework notices deletion of %s (phase %s)", p.name, c04PhName[p.phase])
+			}},
+		{name: "pgAdd", w: 3, gang: func(g *c04Gang) bool { return g.crd && !g.pgExists }, run: func(t *rapid.T, _ *c04Pod, g *c04Gang) { s.pgAdd(t, g) }},
+		{name: "pgUpdate", w: 1, gang: func(g *c04Gang) bool { return g.crd && g.pgExists }, run: func(t *rapid.T, _ *c04Pod, g *c04Gang) {
+			switch rapid.IntRange(0, 3).Draw(t, "what") {
+			case 0: // status-only update
+			case 1:
+				g.min = rapid.IntRange(1, 3).Draw(t, "min")
+				if g.total > 0 && g.total < g.min {
+					g.total = g.min
 				}
-				p := c04Pick(t, s, "bindPod", func(p *c04Pod) bool {
-					return !p.apiDeleted && (p.phase == c04PhBinding || (p.phase == c04PhParked && p.decision == c04DecAllowed))
-				})
-				p.apiVer++
-				p.bindVer = p.apiVer
-				p.phase = c04PhPostBindDue
-				s.logf("bind ok %s -> v%d", p.name, p.apiVer)
-			},
-			"bindFail": func(t *rapid.T) {
-				if s.dead {
-					return
-				}
-				p := c04Pick(t, s, "bindFailPod", func(p *c04Pod) bool {
-					return p.phase == c04PhBinding || (p.phase == c04PhParked && p.decision == c04DecAllowed)
-				})
-				s.unreserve(t, p, "bind failed")
-			},
-			"postBind": func(t *rapid.T) {
-				if s.dead {
-					return
-				}
-				p := c04Pick(t, s, "postBindPod", func(p *c04Pod) bool { return p.phase == c04PhPostBindDue })
-				s.mgr.PostBind(context.TODO(), p.schedObj, "node-1")
-				s.logf("postBind %s", p.name)
-				s.c.ClassIf(p.deleteDelivered, "postbind-after-delete-delivered(zombie)")
-				s.c.ClassIf(p.delivered >= p.bindVer, "postbind-after-informer-saw-node")
-				if p.gang.recExists {
-					p.st = c04Bound
-				}
-				s.once[p.gang.grp] = true
-				p.phase = c04PhDone
-			},
-			"pgAdd": func(t *rapid.T) {
-				if s.dead {
-					return
-				}
-				var el []*c04Gang
-				for _, g := range s.gangs {
-					if g.crd && !g.pgExists {
-						el = append(el, g)
-					}
-				}
-				if len(el) == 0 {
-					t.Skip("no PodGroup to add")
-				}
-				s.pgAdd(t, el[rapid.IntRange(0, len(el)-1).Draw(t, "pg")])
-			},
-			"pgUpdate": func(t *rapid.T) {
-				if s.dead {
-					return
-				}
-				var el []*c04Gang
-				for _, g := range s.gangs {
-					if g.crd && g.pgExists {
-						el = append(el, g)
-					}
-				}
-				if len(el) == 0 {
-					t.Skip("no PodGroup to update")
-				}
-				g := el[rapid.IntRange(0, len(el)-1).Draw(t, "pg")]
-				switch rapid.IntRange(0, 3).Draw(t, "what") {
-				case 0:
-					g.min = rapid.IntRange(1, 3).Draw(t, "min")
-					if g.total > 0 && g.total < g.min {
-						g.total = g.min
-					}
-				case 1:
-					g.mode = rapid.SampledFrom([]string{"", extension.GangModeStrict, extension.GangModeNonStrict}).Draw(t, "mode")
-				case 2:
-					g.policy = rapid.SampledFrom([]string{"", extension.GangMatchPolicyOnlyWaiting, extension.GangMatchPolicyWaitingAndRunning, extension.GangMatchPolicyOnceSatisfied}).Draw(t, "policy")
-				default: // status-only update
-				}
-				old := g.pgObj
-				g.pgVer++
-				g.pgObj = g.buildPG()
-				s.cache.onPodGroupUpdate(old, g.pgObj)
-				s.logf("podgroup update %s min=%d mode=%q policy=%q", g.id, g.min, g.mode, g.policy)
-				s.modelPG(g, "update")
-				s.c.Class("podgroup-update")
-			},
-			"pgDelete": func(t *rapid.T) {
-				if s.dead {
-					return
-				}
-				if rapid.IntRange(0, 2).Draw(t, "rare") != 0 {
-					t.Skip("keep PodGroup deletions rare")
-				}
-				var el []*c04Gang
-				for _, g := range s.gangs {
-					if g.crd && g.pgExists {
-						el = append(el, g)
-					}
-				}
-				if len(el) == 0 {
-					t.Skip("no PodGroup to delete")
-				}
-				g := el[rapid.IntRange(0, len(el)-1).Draw(t, "pg")]
-				g.pgExists = false
-				s.cache.onPodGroupDelete(g.pgObj)
-				s.logf("podgroup delete %s", g.id)
-				s.modelPG(g, "delete")
-				s.c.Class("podgroup-delete")
-			},
-			"": func(t *rapid.T) { s.checkPartition(t) },
-		}
-		t.Repeat(actions)
+			case 2:
+				g.mode = rapid.SampledFrom(modes).Draw(t, "mode")
+			default:
+				g.policy = rapid.SampledFrom(policies).Draw(t, "policy")
+			}
+			old := g.pgObj
+			g.pgVer++
+			g.pgObj = g.buildPG()
+			s.cache.onPodGroupUpdate(old, g.pgObj)
+			s.logf("podgroup update %s min=%d mode=%q policy=%q", g.id, g.min, g.mode, g.policy)
+			s.modelPG(g, "update")
+			s.c.Class("podgroup-update")
+		}},
+		{name: "pgDelete", w: 1, gang: func(g *c04Gang) bool { return g.crd && g.pgExists }, run: func(t *rapid.T, _ *c04Pod, g *c04Gang) {
+			if rapid.IntRange(0, 2).Draw(t, "really") != 2 { // keep PodGroup deletions rare
+				s.logf("noop")
+				return
+			}
+			g.pgExists = false
+			s.cache.onPodGroupDelete(g.pgObj)
+			s.logf("podgroup delete %s", g.id)
+			s.modelPG(g, "delete")
+			s.c.Class("podgroup-delete")
+		}},
+	}
+}
 
-		multi := false
-		for _, g := range s.gangs {
-			c.ClassIf(g.crd, "crd-gang")
-			c.ClassIf(g.light, "lightweight-label-gang")
-			c.ClassIf(g.effMode == extension.GangModeNonStrict && g.recInit, "non-strict-gang")
-		}
-		for _, m := range s.groups {
-			if len(m) >= 2 {
-				multi = true
+// step runs one enabled rule.
+func (s *c04Sim) step(t *rapid.T, rules []c04Rule) {
+	if s.dead {
+		return
+	}
+	type cand struct {
+		r    *c04Rule
+		pods []*c04Pod
+		gs   []*c04Gang
+	}
+	var cands []cand
+	var ticket []int
+	for i := range rules {
+		r := &rules[i]
+		cd := cand{r: r}
+		switch {
+		case r.pod != nil:
+			for _, p := range s.pods {
+				if r.pod(p) {
+					cd.pods = append(cd.pods, p)
+				}
+			}
+			if len(cd.pods) == 0 {
+				continue
+			}
+		case r.gang != nil:
+			for _, g := range s.gangs {
+				if r.gang(g) {
+					cd.gs = append(cd.gs, g)
+				}
+			}
+			if len(cd.gs) == 0 {
+				continue
+			}
+		default:
+			if !r.other() {
+				continue
 			}
 		}
-		c.ClassIf(multi, "multi-gang-group")
-		c.ClassIf(len(s.groups) > 1, "two-groups")
-		c.ClassIf(s.nPermit >= 3, "permits>=3")
-		c.ClassIf(s.nSuccess >= 2, "successes>=2")
-		if s.nt {
-			c.NonTrivial(s.describe())
+		for k := 0; k < r.w; k++ {
+			ticket = append(ticket, len(cands))
 		}
-		if c.WantSample() {
-			c.Sample(map[string]any{"setup": strings.SplitN(s.describe(), " history=", 2)[0], "history": s.hist})
+		cands = append(cands, cd)
+	}
+	if len(cands) == 0 {
+		s.logf("idle")
+		return
+	}
+	cd := cands[ticket[rapid.IntRange(0, len(ticket)-1).Draw(t, "rule")]]
+	var p *c04Pod
+	var g *c04Gang
+	if cd.pods != nil {
+		p = cd.pods[rapid.IntRange(0, len(cd.pods)-1).Draw(t, cd.r.name+"Pod")]
+	}
+	if cd.gs != nil {
+		g = cd.gs[rapid.IntRange(0, len(cd.gs)-1).Draw(t, cd.r.name+"Gang")]
+	}
+	s.c.Class("rule:" + cd.r.name)
+	cd.r.run(t, p, g)
+}
+
+// populate creates the initial objects: PodGroups mostly present, a few pods per gang mostly delivered.
+func (s *c04Sim) populate(t *rapid.T) {
+	for _, g := range s.gangs {
+		if g.crd && rapid.IntRange(0, 5).Draw(t, "pgAbsent") != 5 {
+			s.pgAdd(t, g)
 		}
+		n := rapid.IntRange(0, g.min+1).Draw(t, "initialPods")
+		for i := 0; i < n && len(s.pods) < c04MaxPods; i++ {
+			p := s.newPod(g, rapid.IntRange(0, 9).Draw(t, "preBound") == 9)
+			if rapid.IntRange(0, 5).Draw(t, "lateAdd") != 5 {
+				s.deliverTo(p, 1)
+			}
+		}
+	}
+}
+
+func (s *c04Sim) finish() {
+	c := s.c
+	multi := false
+	for _, g := range s.gangs {
+		c.ClassIf(g.crd, "crd-gang")
+		c.ClassIf(g.light, "lightweight-label-gang")
+		c.ClassIf(g.effMode == extension.GangModeNonStrict && g.recInit, "non-strict-gang")
+		if g.recInit {
+			c.Class("policy:" + g.effPolicy)
+		}
+	}
+	for _, m := range s.groups {
+		if len(m) >= 2 {
+			multi = true
+		}
+	}
+	c.ClassIf(multi, "multi-gang-group")
+	c.ClassIf(len(s.groups) > 1, "two-groups")
+	c.ClassIf(s.nPermit >= 3, "permits>=3")
+	c.ClassIf(s.nSuccess >= 2, "successes>=2")
+	if s.nt {
+		c.NonTrivial(s.describe())
+	}
+	if c.WantSample() {
+		c.Sample(map[string]any{"setup": strings.SplitN(s.describe(), " history=", 2)[0], "history": s.hist})
+	}
+}
+
+// ---------------------------------------------------------------- the history test
+
+func TestVerifC04History(t *testing.T) {
+	c04Silence()
+	rec := vk.New(t, "C04", "history")
+	rapid.Check(t, func(t *rapid.T) {
+		c := rec.Begin()
+		defer c.End()
+		s := c04GenSim(t, c)
+		s.populate(t)
+		rules := s.rules()
+		t.Repeat(map[string]func(*rapid.T){
+			"step": func(t *rapid.T) { s.step(t, rules) },
+			"":     func(t *rapid.T) { s.checkPartition(t) },
+		})
+		s.finish()
 	})
 }
